@@ -33,6 +33,19 @@ class V:
         return (V, (self.v,))
 
 
+def _inner_nodes(node, isroot, out):
+    # (module level, not a nested closure: a closure referring to itself would keep `out` alive until collected)
+    from harness import proj as P
+    st = node.__getstate__()
+    if not isroot:
+        out.append(node)
+    if st is None or len(st) == 1:      # (empty, or the inline form of a node with a single never-stored leaf)
+        return
+    for x in st[0][0::2]:
+        if P.is_tree(x):
+            _inner_nodes(x, False, out)
+
+
 def main():
     job = json.load(open(sys.argv[1]))
     from harness import embed, proj as P, graph, keys, api, minijar
@@ -84,6 +97,15 @@ def main():
                 want[('v', i + 1)] = base[('v', i + 1)] + n
         return want
 
+    def node_refs(t):
+        """reference counts of the node objects, minus the references this function itself holds"""
+        leaves = P.collect_leaves(t)
+        inner = []
+        _inner_nodes(t, True, inner)
+        lr = [sys.getrefcount(leaves[i]) - 2 for i in range(len(leaves))]
+        ir = [sys.getrefcount(inner[i]) - 2 for i in range(len(inner))]
+        return lr, ir
+
     def diff(now, want):
         return {'%s%d' % k: [now[k] - base[k], want[k] - base[k]] for k in now if now[k] != want[k]}
 
@@ -107,6 +129,10 @@ def main():
         want = ledger_of(tr)
         if now != want:
             mism.append(dict(where, kind='ledger', delta_real_model=diff(now, want)))
+        if 'lrefs' in tr:
+            lr, ir = node_refs(t)
+            if lr != tr['lrefs'] or ir != tr['irefs']:
+                mism.append(dict(where, kind='node-ledger', delta_real_model=dict(leaves=[lr, tr['lrefs']], interior=[ir, tr['irefs']])))
         # ---- other users of references, on this state
         if job.get('scenarios') and ti % job.get('scenario_every', 7) == 0:
             counts['scenarios'] += 1
@@ -131,6 +157,24 @@ def main():
             mid = refs()            # (an iterator may cache its current item)
             del it, seq
             expect('sequences-dropped')
+            # every kind of range search, the lazy sequence dropped at once: nodes and entries as before
+            bounds = [None] + [kpool[x] for x in ks[:1] + ks[-1:]]
+            for lo in bounds:
+                for hi in bounds:
+                    for xl in (False, True):
+                        for xh in (False, True):
+                            try:
+                                s_ = t.keys(lo, hi, xl, xh)
+                                n_ = len(s_)
+                                del s_
+                            except (ValueError, TypeError):
+                                pass
+            del bounds, lo, hi
+            expect('range-searches-dropped')
+            if 'lrefs' in tr:
+                lr, ir = node_refs(t)
+                if lr != tr['lrefs'] or ir != tr['irefs']:
+                    mism.append(dict(where, kind='node-ledger-after-range-searches', delta_real_model=dict(leaves=[lr, tr['lrefs']], interior=[ir, tr['irefs']])))
             if not is_set:
                 its = t.items()
                 lst = list(its)
